@@ -91,6 +91,11 @@ CHECKS = {
    text="tscreen.go/screen.go are rewritten at build time (sync, time, go statements, channel operations, select) so that every synchronisation operation of the real code is a scheduling point owned by the explorer; tty reads, timers and the clock are virtual. About 230 members of the shutdown family (Fini or Suspend x event-queue level 0..10 x chunks offered 0..13 x consumer polling or stopped, plus pending resize, tty read error at the 1st-3rd read, concurrent poster, concurrent drawer, Suspend/Resume cycles) are each explored exhaustively up to 2 deviations (thorough 3) from the canonical schedule - a deviation is a preemption, an early timer firing or a non-first ready select arm; which blocked thread resumes is explored without bound. A deterministic prologue fills the real-capacity queues, branching starts when the shutdown caller is spawned. Every execution must end with the shutdown caller finished, PollEvent not parking after Fini, ChannelEvents closed, both library goroutines gone, later calls not panicking, and input/resize working after Resume.",
    note="Scheduling points are synchronisation operations (sequential consistency between them); pruning merges states with equal thread-local histories, queue contents, protected screen state and tty state (argument in rt/sched/sched.go); bounded deviations; evidence reports whether each member completed its bound.",
    design="2/C06"),
+ "C05": dict(level="model_checking",
+   technique="stateless DFS over thread schedules of the real input pipeline (inputLoop -> chunk queue -> mainLoop -> event queue -> PollEvent/ChannelEvents) under the controlled scheduler, deviation-bounded with state-key pruning; sequence-number oracle at quiescence",
+   text="Instrumented build as for C06 (plus virtual time in the event constructors). Families: slow consumer (11-23 keys typed while the application does not poll, real queue capacities, branching starts when the consumer starts), free interleaving of a feeder, up to two posters and a resize notifier with a polling consumer, HasPendingEvent-then-PollEvent, ChannelEvents with quit or Fini, posts against a nearly full queue, and key sequences split across reads. Every schedule within 2 deviations (1 for the families with several racing producers; thorough +1) is executed; at quiescence the delivered keys must be exactly the typed sequence in order, each poster's events in posting order, PostEvent nil iff delivered exactly once, PollEvent after a true HasPendingEvent must not wait, ChannelEvents must forward an in-order prefix and close, and When() must lie between arrival and delivery on the virtual clock.",
+   note="EventResize is outside the exactly-once claim (the code drops it when the queue is full by design); split-sequence decoding is not judged when the virtual escape timer fired in between; same scheduler trusted base as C06.",
+   design="2/C05"),
  # --- new checks above this line ---
 }
 
